@@ -310,7 +310,7 @@ def execute(H, driver, stats=None):
     grids, ms = [b[0] for b in built], [b[1] for b in built]
     locs = [Locator(m) for m in ms]
     init_vars = [obs_vars(g._ds, skip=()) for g in grids]
-    init_enc = [obs_encoding(g._ds, skip=()) for g in grids]
+    init_enc = [obs_encoding(g._ds) for g in grids]
     failures, mismatches, steps = [], [], []
     model_ops, impl_outs = [], []
     for gi, (m0, m) in enumerate(zip(ms0, ms)):
